@@ -1,4 +1,5 @@
 PROP = {
+    "regen_files": ["GenDeleg.v"],
     "num": 8,
     "runs": [{"tag": "c08", "bin": "c08"}],
     "mismatch_is_failing": True,
